@@ -1,6 +1,7 @@
 package mon
 
 import (
+	"bytes"
 	"github.com/tyler-sommer/stick"
 	"github.com/tyler-sommer/stick/twig"
 	"sort"
@@ -55,6 +56,25 @@ func (r *Recorder) Register(env *stick.Env) {
 			}
 		}
 		return out
+	}
+	// render(name) and setvar(name, value) use the context the way a user's callback may: a re-entrant Execute on
+	// the same environment into a buffer of the callback's own, and an assignment through the scope
+	env.Functions["render"] = func(ctx stick.Context, args ...stick.Value) stick.Value {
+		if len(args) != 1 {
+			return "RENDER-ARGS"
+		}
+		var buf bytes.Buffer
+		vars := ctx.Scope().All()
+		if err := ctx.Env().Execute(stick.CoerceString(args[0]), &buf, vars); err != nil {
+			return "RENDER-ERROR"
+		}
+		return buf.String()
+	}
+	env.Functions["setvar"] = func(ctx stick.Context, args ...stick.Value) stick.Value {
+		if len(args) == 2 {
+			ctx.Scope().Set(stick.CoerceString(args[0]), args[1])
+		}
+		return ""
 	}
 	// names() lists every name the scope holds at this point (sorted): nothing may be defined on the side
 	env.Functions["names"] = func(ctx stick.Context, args ...stick.Value) stick.Value {
